@@ -784,7 +784,17 @@ def extra_programs():
 
     L = lambda t: t["L"]  # noqa: E731
     R = lambda t: t["R"]  # noqa: E731
+    def arr_unsorted(t):
+        import dask_expr as dx
+        import numpy as np
+
+        # a reader whose own column order is not the sorted order of its labels (seeded change C01-m4)
+        return dx.from_array(np.arange(36).reshape(12, 3) * np.array([1, 10, 100]), chunksize=5, columns=["c", "a", "b"])
+
     out = [
+        mk("from_array_unsorted_sel2", lambda t: arr_unsorted(t)[["c", "a"]]),
+        mk("from_array_unsorted_sel2_add", lambda t: (arr_unsorted(t) + 1)[["b", "c"]]),
+        mk("from_array_unsorted_sel_sum", lambda t: arr_unsorted(t)[["c", "b"]].sum()),
         mk("bcast_add_head", lambda t: (L(t).a + L(t).a.sum()).head(5, compute=False)),  # D2
         mk("bcast_add_head_all", lambda t: (L(t).a + L(t).a.sum()).head(5, npartitions=-1, compute=False)),
         mk("elemwise_head_np2", lambda t: (L(t) + 1).head(7, npartitions=2, compute=False)),  # D3
